@@ -14,7 +14,7 @@ EXTENDS Codec
 
 Values == ndJsonDeserialize(IOEnv.VERIF_VALUES)
 VARIABLE i
-PrefixKinds == {KListCount, KStrPrefix, KObjCount}
+PrefixKinds == {KListCount, KStrPrefix, KObjCount, KLen}   \* length/count prefixes and the frame length field
 
 MinN(a, b) == IF a < b THEN a ELSE b
 
@@ -31,7 +31,7 @@ HostileOf(T, v) ==
       slots == IF E.ok THEN {s \in SlotStarts(E.mask) : SlotKind(E.mask, s) \in PrefixKinds} ELSE {}
   IN UNION { { Take(b, s - 1) \o Ord(e, p) \o SubSeq(b, s + SlotW(E.mask, s), MinN(s + SlotW(E.mask, s) + keep - 1, Len(b)))
                : p \in HostilePrefixes(SlotW(E.mask, s), Len(b) - (s + SlotW(E.mask, s) - 1)) }
-             : s \in slots, keep \in {0, 6} }
+             : s \in slots, keep \in {0, 6, Len(b)} }
 
 Report(T, w) == LET D == Dec(T, w) IN [t |-> T, w |-> w, ok |-> D.ok, reserve |-> D.reserve, why |-> D.why]
 
